@@ -186,3 +186,13 @@ func (c *Ctx) mentionsBound(t string) bool {
 	}
 	return false
 }
+
+func init() {
+	// subslice(s, lo, hi): the slice s[lo:hi]
+	specFuncs["subslice"] = func(sc *Scope, a []Val) Val {
+		x := sc.x
+		lo, hi := sc.idxTerm(a[1]), sc.idxTerm(a[2])
+		s := a[0].T
+		return Val{T: sx("mk_slice", sx("sl_arr", s), x.addIdx(sx("sl_off", s), lo), x.subIdx(hi, lo), x.subIdx(sx("sl_cap", s), lo)), Ty: a[0].Ty}
+	}
+}
